@@ -13,6 +13,7 @@ pub use crate::vfield::*;
 pub use crate::vgroup::*;
 pub use crate::vorder::*;
 pub use crate::vinterp::*;
+pub use crate::vworld::*;
 pub use crate::vstdx::*;
 verus! {
 //@module_serves ALL
@@ -84,18 +85,32 @@ pub proof fn use_algebra<C: Ciphersuite>()
         forall|a: Element<C>, b: Element<C>| #[trigger] a.sub_spec(b) == esub::<C>(a, b),
         forall|a: Element<C>, k: Scalar<C>| #[trigger] a.mul_spec(k) == emul::<C>(a, k),
         forall|a: Element<C>, b: Element<C>| #[trigger] a.eq_spec(&b) == (a == b),
+        forall|e: FieldError, r: Error<C>| #[trigger] vstd::std_specs::control_flow::spec_from::<Error<C>, FieldError>(e, r) ==> r == Error::<C>::FieldError(e),
+        forall|e: GroupError, r: Error<C>| #[trigger] vstd::std_specs::control_flow::spec_from::<Error<C>, GroupError>(e, r) ==> r == Error::<C>::GroupError(e),
 {
     FF::<C>::ax_ops();
     GG::<C>::ax_eops();
+    assert forall|e: FieldError, r: Error<C>| #[trigger] vstd::std_specs::control_flow::spec_from::<Error<C>, FieldError>(e, r) implies r == Error::<C>::FieldError(e) by { ax_question_mark_field::<C>(e, r); }
+    assert forall|e: GroupError, r: Error<C>| #[trigger] vstd::std_specs::control_flow::spec_from::<Error<C>, GroupError>(e, r) implies r == Error::<C>::GroupError(e) by { ax_question_mark_group::<C>(e, r); }
 }
+
+// T6: the `?` operator converts the error with `From::from` (Rust reference); vstd models the conversion by the uninterpreted
+// relation `spec_from`.  For the two `#[from]` conversions of `Error<C>` (expanded by rule E2) it is the generated From impl.
+pub axiom fn ax_question_mark_field<C: Ciphersuite>(e: FieldError, r: Error<C>)
+    ensures vstd::std_specs::control_flow::spec_from::<Error<C>, FieldError>(e, r) ==> r == Error::<C>::FieldError(e);
+pub axiom fn ax_question_mark_group<C: Ciphersuite>(e: GroupError, r: Error<C>)
+    ensures vstd::std_specs::control_flow::spec_from::<Error<C>, GroupError>(e, r) ==> r == Error::<C>::GroupError(e);
+
 
 pub proof fn use_id_order<C: Ciphersuite>()
     ensures
+        default_world::<C>(),
         vstd::laws_cmp::obeys_cmp::<Identifier<C>>(),
         vstd::std_specs::btree::key_obeys_cmp_spec::<Identifier<C>>(),
         lt_laws::<Identifier<C>>(),
 {
     ax_identifier_ord::<C>();
+    ax_default_world::<C>();
 }
 
 // T7 (assumed): `Ord for Identifier` is a total order consistent with `==`
@@ -456,6 +471,43 @@ pub open spec fn spec_refresh_share<C: Ciphersuite>(rs: crate::keys::SecretShare
 pub open spec fn spec_share_ok_c<C: Ciphersuite>(s: Scalar<C>, id: Identifier<C>, c: Seq<crate::keys::CoefficientCommitment<C>>) -> Result<(), Error<C>> {
     if gmul::<C>(s) != spec_vss::<C>(comm_vals::<C>(c), id.0.0, s1::<C>()) { Err(Error::InvalidSecretShare { culprit: None }) }
     else if c.len() == 0 { Err(Error::MissingCommitment) } else { Ok(()) }
+}
+
+
+// ---- distributed key generation (C07, C08, C09) ----
+pub open spec fn enc_id<C: Ciphersuite>(i: Identifier<C>) -> Seq<u8> { FF::<C>::spec_ser(i.0.0) }
+pub open spec fn enc_el<C: Ciphersuite>(e: Element<C>) -> Seq<u8> { GG::<C>::spec_eser(e) }
+
+// rejection sampling of a non-zero scalar (placeholder vocabulary for random_nonzero; T11: termination not proved)
+pub uninterp spec fn spec_rnz_val<C: Ciphersuite>(stream: spec_fn(nat) -> u8, pos: nat) -> Scalar<C>;
+pub uninterp spec fn spec_rnz_end<C: Ciphersuite>(stream: spec_fn(nat) -> u8, pos: nat) -> nat;
+
+// challenge of the proof of knowledge (FROST paper fig. 1, round 1 step 2): c = HDKG(enc(id) || enc(phi_0) || enc(R))
+pub open spec fn spec_dkg_challenge<C: Ciphersuite>(id: Identifier<C>, phi0: Element<C>, r: Element<C>) -> Result<Scalar<C>, Error<C>> {
+    if phi0 == e0::<C>() || r == e0::<C>() { Err(Error::GroupError(GroupError::InvalidIdentityElement)) }
+    else { match C::spec_HDKG(enc_id::<C>(id) + enc_el::<C>(phi0) + enc_el::<C>(r)) { None => Err(Error::DKGNotSupported), Some(c) => Ok(c) } }
+}
+
+// verification of a proof of knowledge sigma = (R, mu) for the commitment `c` filed under sender `id`:  R == mu G - c * phi_0
+pub open spec fn spec_pok_check<C: Ciphersuite>(id: Identifier<C>, c: Seq<crate::keys::CoefficientCommitment<C>>, sig: Signature<C>) -> Result<(), Error<C>> {
+    if c.len() == 0 { Err(Error::MissingCommitment) } else {
+        match spec_dkg_challenge::<C>(id, c[0].0.0, sig.R) {
+            Err(e) => Err(e),
+            Ok(ch) => if sig.R != esub::<C>(gmul::<C>(sig.z), emul::<C>(c[0].0.0, ch)) { Err(Error::InvalidProofOfKnowledge { culprit: id }) } else { Ok(()) },
+        }
+    }
+}
+
+
+// the proof of knowledge an honest participant computes with nonce k
+pub open spec fn spec_compute_pok<C: Ciphersuite>(id: Identifier<C>, coeffs: Seq<Scalar<C>>, c: Seq<crate::keys::CoefficientCommitment<C>>, k: Scalar<C>) -> Result<Signature<C>, Error<C>> {
+    if c.len() == 0 { Err(Error::MissingCommitment) } else {
+        match spec_dkg_challenge::<C>(id, c[0].0.0, gmul::<C>(k)) {
+            Err(e) => Err(e),
+            Ok(ch) => if coeffs.len() == 0 { Err(Error::InvalidCoefficients) } else {
+                Ok(Signature::<C> { R: gmul::<C>(k), z: sadd::<C>(k, smul::<C>(coeffs[0], ch)) }) },
+        }
+    }
 }
 
 } // verus!
